@@ -33,6 +33,11 @@ CHECKS = {
    text="For every produced valid encoding of N elements and every capacity m in [0, N] (N <= 300; boundary grid above; (start, size) grid for the block reader) each capacity-taking decoder decodes into an exact-size heap block of m elements followed by the ASan redzone; nothing at or beyond element m may be written, the returned count must be <= m, and the returned elements must be a prefix of the encoded sequence (covers both documented behaviours, return 0 or return a prefix). The shortfall dimension is enumerated completely per encoding; encodings are the sampled workload.",
    design_ref="DESIGN.md 2.6, 3/C13",
    note="Trusted: ASan redzones; the baseline rule (inputs whose full-capacity decode does not reproduce the input are skipped as C02/C06 matters). Inputs carry 64 bytes of slack because over-reads of valid data are not this property's subject."),
+ "C17": dict(engine="E-FIBER + E-TRACE fiber", category="exploration",
+   technique="deterministic simulation: seeded fiber scheduler at compiler-inserted yield points + conflict detector",
+   text="2-16 simulated threads (cooperative fibers) call the codecs documented as pure - scalar put/get of every family, delta, FOR, PFOR, group, dictionary (incl. a shared read-only prebuilt dictionary), RLE, Elias, BP128, float, adaptive, packed arrays and bitstreams on slot/word-disjoint slices of shared storage - on shared inputs and private outputs. Library code is compiled with TSan's instrumentation pass but linked against the simulator's own callbacks, so every load, store, memcpy/memset and basic block is a yield point at which a seeded scheduler (random preemption, PCT, sequential) decides who runs. Oracles: byte-granular conflict detection (two tasks, same byte, at least one write, no common simulated lock), every return value and output bit-identical to the same program run alone, shared inputs unchanged, no crash/deadlock/step overrun. Exploration over schedules: seeded search, evidence not proof.",
+   design_ref="DESIGN.md 2.4, 2.5, 3/C17",
+   note="Trusted: the fiber scheduler and shadow map (sim/seams/fiber.cc), clang's TSan instrumentation pass (which accesses are instrumented), llvm-symbolizer for naming conflict sites. Fibers are not hardware threads (no weak memory, no word tearing); the footprint-based detector makes a conflict visible in every schedule in which both tasks execute the code."),
  "C08": dict(engine="E-HIST hist.bitmap", category="exploration",
    technique="deterministic simulation: seeded operation histories against a reference set model",
    text="Seeded search over operation histories (add/remove/ranges/clear/clone/bulk add/set algebra/serialise+deserialise on a pool of three objects, biased to drive cardinality across 4096 and to hit run containers) executed against the real varintBitmap.c; after every operation the object's answers (return values, cardinality, emptiness, ascending duplicate-free iteration, array export, sampled and full membership sweeps, operands unchanged) are compared with a 65536-bit set model. Exploration is the right level: the history space is unbounded, transitions depend on the path taken, and a clean batch is evidence over the seeds run, not proof.",
@@ -77,6 +82,8 @@ def main():
              "kind_free_text": "allocator seam: k-th allocation request of a call fails, every k; leak/double-free accounting"},
             {"name": "E-ALLOC-DICT", "path": "sim/engines/alloc_dict.cc", "serves_properties": ["C18"],
              "kind_free_text": "dictionary object histories under allocation faults"},
+            {"name": "E-FIBER", "path": "sim/seams/fiber.cc + sim/engines/fiber_engine.cc", "serves_properties": ["C17"],
+             "kind_free_text": "cooperative fibers, seeded scheduler at TSan-instrumentation yield points, byte-granular conflict detector"},
             {"name": "E-PIPE", "path": "sim/engines/pipe.cc", "serves_properties": ["C13", "C14"],
              "kind_free_text": "producer (real encoder) -> fault-injecting medium -> consumer (real decoder on exact-size blocks)"},
         ],
